@@ -18,6 +18,8 @@ Judge(c) ==
     [] PROP = "C07" -> P_C07(c)
     [] PROP = "C08" -> P_C08(c)
     [] PROP = "C09" -> P_C09(c)
+    [] PROP = "C05" -> P_C05(c)
+    [] PROP = "C06" -> P_C06(c)
     [] OTHER -> FALSE
 Init == l = 0 /\ TLCSet(2, {})
 Step == l <= N /\ l' = l + 1
